@@ -27,7 +27,7 @@ CHECKS = {
     ),
     "C20": dict(
         technique="Lean 4 theorem on a trace model of RW locks (lock discipline => conflicting accesses of different threads are separated by release/acquire of the guard, never adjacent), a static lockset table regenerated from the Go source (function x field x read/write x locks held incl. callers' locks by call-graph fixpoint) checked against the guard assignment by kernel evaluation, and a stress run of all concurrently executed operation groups under the Go race detector",
-        text="Proved: in the RWMutex trace model a disciplined program has no unordered conflicting accesses (C20_lockset_orders, C20_no_adjacent_race). Regenerated on every run and checked in the kernel: every access to a field of IRCServer, Session, channel, OutputStream, LevelDBStore, HTTP, FSM in the source holds the field's guard (exclusively for writes), every handler is entered with the session lock held exclusively, every field is classified as guarded / immutable / goroutine-confined, with nine justified exceptions. What a static lockset cannot see (escaping pointers, two server instances, confinement) is covered by running two POSTs per session, long-polls, create/delete, status pages, config, expiry, Snapshot+Persist and Restore concurrently under -race. Seven genuine races were found this way (one by the static table) and repaired.",
+        text="Proved: in the RWMutex trace model a disciplined program has no unordered conflicting accesses (C20_lockset_orders, C20_no_adjacent_race). Regenerated on every run and checked in the kernel: every access to a field of IRCServer, Session, channel, OutputStream, LevelDBStore, HTTP, FSM in the source holds the field's guard (exclusively for writes), every handler is entered with the session lock held exclusively, every field is classified as guarded / immutable / goroutine-confined, with nine justified exceptions; every acquisition of a mutex while another is (or through any caller may be) held respects one global lock order (C20_lock_order; the inversion it replaced deadlocked the node, fixed in 34426db). What a static lockset cannot see (escaping pointers, two server instances, confinement) is covered by running two POSTs per session, long-polls, create/delete, status pages, config, expiry, Snapshot+Persist and Restore concurrently under -race. Seven genuine races were found this way (one by the static table) and repaired.",
         design_ref="DESIGN.md §4 C20",
         note="Trusts: Lean kernel; tools/extract/locks.go (pattern-based lockset, not a sound alias analysis); sync.RWMutex semantics as modelled; the race detector sees only the schedules that occur. Restore is kept apart from readers of the closed stores in the stress run (those crash the process: observation in DESIGN.md, not a data race).",
     ),
@@ -93,7 +93,7 @@ CHECKS = {
     ),
     "C15": dict(
         technique="Lean 4 theorems about the byte-level model of irc.ParseMessage / Message.Bytes and of the handlers' firstLine cut (clean in => one clean line out, <= 510 bytes), regenerated facts pinning both HTTP handlers to firstLine with cutset CR/LF/NUL, correspondence of the whole IRC layer with the real code, line predicate on every delivered line",
-        text="Machine-checked proof that rendering never exceeds 510 bytes, that a message assembled from strings without CR/LF/NUL renders to bytes without CR/LF/NUL (UTF-8 encoding lemma included), that parsing a clean line yields clean prefix/command/parameters (case-mapping tables checked by kernel evaluation), that firstLine returns a clean prefix of its input, and that posted text after cut+parse+render is one clean line; the handlers' use of firstLine and its cutset are re-extracted from the Go source on every run. State-level propagation through all handlers is not yet a theorem (partial): it is covered by the correspondence run plus a line predicate on every output line of every generated history.",
+        text="Machine-checked proof that rendering never exceeds 510 bytes, that a message assembled from strings without CR/LF/NUL renders to bytes without CR/LF/NUL (UTF-8 encoding lemma included), that parsing a clean line yields clean prefix/command/parameters (case-mapping tables checked by kernel evaluation), that firstLine returns a clean prefix of its input, and that posted text after cut+parse+render is one clean line; the handlers' use of firstLine and its cutset are re-extracted from the Go source on every run. State level, proved over all 41 handlers, all entry types and all histories: every stored string stays free of CR/LF/NUL and every output line is clean and at most 510 bytes (C15_history_outputs_clean); user names are bounded (after fix 916cb2e), prefixes are bounded, and every output line keeps its command after the 510-byte cut (C15_history_lines_have_command; assumptions on names chosen by services and the operator are explicit hypotheses). The body of firstLine is pinned, and the line predicate (length, CR/LF/NUL, [prefix] command) is evaluated on every delivered line of every generated history on the real code.",
         design_ref="DESIGN.md §4 C15",
         note="Trusts: Lean kernel; tools/extract; the pinned sorcix/irc.v2 parse/render model and the handlers are tied by differential runs; JSON decoding yields valid UTF-8.",
     ),
@@ -125,7 +125,7 @@ CHECKS = {
         technique="Lean 4 theorems over definitions regenerated from timesafeguard.go by a Go-to-Lean fragment translator; differential run of the real functions vs the model; soundness oracle on synthetic measurements",
         text="Machine-checked proof (Lean 4, unbounded integers incl. int64 wrap/saturation) that a measurement accepted by the regenerated worstCaseDrift/timeInSync implies |true offset| < 2s for every delay pattern, that refusal lists exactly the offending answered peers, that unanswered peers are ignored and that only the flag overrides; the definitions are re-translated from the Go source on every run and synchronizedWithNetwork is tied by a differential run.",
         design_ref="DESIGN.md §4 C19",
-        note="Trusts: Lean kernel; the fragment translator (tools/extract/frag.go); time.Time modelled as unbounded ns with saturating Sub; collectTime/getServerTime (HTTP, goroutines) not modelled.",
+        note="Trusts: Lean kernel; the fragment translator (tools/extract/frag.go); time.Time modelled as unbounded ns with saturating Sub; collectTime/getServerTime (HTTP, goroutines) not modelled: exercised end to end against fake HTTPS peers (in sync / off / unreachable).",
     ),
 }
 
